@@ -114,8 +114,16 @@ func (e *Enum) Values() ([]Value, error) {
 	if e.values == nil {
 		return nil, nil
 	}
-	// A copy: the caller may reorder or overwrite what it gets.
-	return append([]Value{}, e.values...), nil
+	// A copy, the bytes included (they are views of the rule's text): the
+	// caller may reorder or overwrite what it gets.
+	vv := make([]Value, len(e.values))
+	for i, v := range e.values {
+		if v.Value != nil {
+			v.Value = append(v.Value[:0:0], v.Value...)
+		}
+		vv[i] = v
+	}
+	return vv, nil
 }
 
 func (e *Enum) compile() error {
